@@ -214,3 +214,129 @@ func TestVerifFindingRelativeValidityHash(t *testing.T) {
 	}
 	fmt.Printf("VERIF-REPLAY: not-reproduced hashes %x %x periods %v %v\n", a.HashSum(), b.HashSum(), pa, pb)
 }
+
+// TestVerifBoundedParseExtensions is the bounded stand-in for parseExtensions (reflection with a non-constant bound):
+// all 2^11 ways to set the pointer fields of one AnyExtension, and all lists of length 0..2 over the singletons and
+// the empty element. Oracle from the statement of C06: exactly one kind per list element or an error; kinds and their
+// contents come out in list order.
+func TestVerifBoundedParseExtensions(t *testing.T) {
+	mk := func(mask int) (AnyExtension, []config.ExtensionConfig) {
+		var a AnyExtension
+		var want []config.ExtensionConfig
+		tag := fmt.Sprintf("%d", mask)
+		if mask&1 != 0 {
+			a.SubjectKeyIdentifier = &SubjectKeyIdentifier{Raw: tag}
+			want = append(want, *a.SubjectKeyIdentifier)
+		}
+		if mask&2 != 0 {
+			a.KeyUsage = &KeyUsage{Raw: tag}
+			want = append(want, *a.KeyUsage)
+		}
+		if mask&4 != 0 {
+			a.SubjectAltName = &SubjectAltName{Raw: tag}
+			want = append(want, *a.SubjectAltName)
+		}
+		if mask&8 != 0 {
+			a.BasicConstraints = &BasicConstraints{Raw: tag}
+			want = append(want, *a.BasicConstraints)
+		}
+		if mask&16 != 0 {
+			a.CertPolicies = &CertPolicies{Raw: tag}
+			want = append(want, *a.CertPolicies)
+		}
+		if mask&32 != 0 {
+			a.AuthInfoAccess = &AuthInfoAccess{Raw: tag}
+			want = append(want, *a.AuthInfoAccess)
+		}
+		if mask&64 != 0 {
+			a.AuthKeyId = &AuthKeyId{Raw: tag}
+			want = append(want, *a.AuthKeyId)
+		}
+		if mask&128 != 0 {
+			a.ExtKeyUsage = &ExtKeyUsage{Raw: tag}
+			want = append(want, *a.ExtKeyUsage)
+		}
+		if mask&256 != 0 {
+			a.AdmissionExtension = &AdmissionExtension{Raw: tag}
+			want = append(want, *a.AdmissionExtension)
+		}
+		if mask&512 != 0 {
+			a.OcspNoCheckExtension = &OcspNoCheckExtension{Raw: tag}
+			want = append(want, *a.OcspNoCheckExtension)
+		}
+		if mask&1024 != 0 {
+			a.CustomExtension = &CustomExtension{Raw: tag}
+			want = append(want, *a.CustomExtension)
+		}
+		a.Optional, a.Override = mask&3 == 1, mask&5 == 4
+		return a, want
+	}
+	same := func(got, want []config.ExtensionConfig) bool {
+		if len(got) != len(want) {
+			return false
+		}
+		for i := range got {
+			if fmt.Sprintf("%T%+v", got[i], got[i]) != fmt.Sprintf("%T%+v", want[i], want[i]) {
+				return false
+			}
+		}
+		return true
+	}
+	n := 0
+	check := func(list []AnyExtension, wants [][]config.ExtensionConfig) bool {
+		n++
+		var want []config.ExtensionConfig
+		ok := true
+		for _, w := range wants {
+			if len(w) != 1 {
+				ok = false
+			}
+			want = append(want, w...)
+		}
+		var got []config.ExtensionConfig
+		var err error
+		func() {
+			defer func() {
+				if r := recover(); r != nil {
+					err = fmt.Errorf("panic: %v", r)
+					ok = true // a panic is a violation whatever the oracle says
+					got = nil
+				}
+			}()
+			got, err = parseExtensions(list)
+		}()
+		if err != nil && strings.HasPrefix(err.Error(), "panic:") {
+			fmt.Printf("VERIF-BOUNDED: violation parseExtensions panics (%v) for %+v\n", err, list)
+			return false
+		}
+		if ok != (err == nil) {
+			fmt.Printf("VERIF-BOUNDED: violation parseExtensions err=%v, one kind per element=%v for %d elements\n", err, ok, len(list))
+			return false
+		}
+		if ok && !same(got, want) {
+			fmt.Printf("VERIF-BOUNDED: violation parseExtensions returned %+v, configured %+v\n", got, want)
+			return false
+		}
+		return true
+	}
+	for mask := 0; mask < 2048; mask++ {
+		a, w := mk(mask)
+		if !check([]AnyExtension{a}, [][]config.ExtensionConfig{w}) {
+			return
+		}
+	}
+	if !check(nil, nil) {
+		return
+	}
+	singles := []int{0, 1, 2, 4, 8, 16, 32, 64, 128, 256, 512, 1024, 3, 1025}
+	for _, m1 := range singles {
+		for _, m2 := range singles {
+			a1, w1 := mk(m1)
+			a2, w2 := mk(m2)
+			if !check([]AnyExtension{a1, a2}, [][]config.ExtensionConfig{w1, w2}) {
+				return
+			}
+		}
+	}
+	fmt.Printf("VERIF-BOUNDED: ok cases=%d\n", n)
+}
